@@ -366,10 +366,34 @@ class State:
         while f[0] in ("eq", "ne") and isinstance(f[1], tuple) and f[1] and f[1][0] == "un" and f[1][1] == "Not" and f[2] in (0, 1):
             f = (f[0], f[1][2], 1 - f[2])
         self.facts = self.facts | {f}
+        # a true conjunction / false disjunction of comparisons says the same of each operand
+        # (`(l, r) == (vl, vr)` is `l == vl & r == vr`, `a & b` on two tests)
+        t = f[1]
+        if f[0] == "eq" and f[2] in (0, 1) and not isinstance(f[2], bool) and isinstance(t, tuple) and len(t) == 4 and t[0] == "bin" and ((t[1] == "BitAnd" and f[2] == 1) or (t[1] == "BitOr" and f[2] == 0)) and _boolish(t[2]) and _boolish(t[3]):
+            self.add_fact(("eq", t[2], f[2]))
+            self.add_fact(("eq", t[3], f[2]))
+        # ... and a false conjunction / true disjunction leaves one operand once the other is known
+        # (`!(l == vl & r == vr)` with `r == vr` known by invariant gives `l != vl`)
+        elif f[0] == "eq" and f[2] in (0, 1) and not isinstance(f[2], bool) and isinstance(t, tuple) and len(t) == 4 and t[0] == "bin" and ((t[1] == "BitAnd" and f[2] == 0) or (t[1] == "BitOr" and f[2] == 1)) and _boolish(t[2]) and _boolish(t[3]):
+            self.facts = self.facts | {("imp", ("eq", t[2], 1 - f[2]), ("eq", t[3], f[2])), ("imp", ("eq", t[3], 1 - f[2]), ("eq", t[2], f[2]))}
 
     def add_event(self, ev):
         self.events = (self.events, ev)
         self.nevents += 1
+
+
+def _boolish(t):
+    """a term that is a truth value by construction: a comparison, or and / or / not of such"""
+    if not isinstance(t, tuple) or not t:
+        return False
+    if t[0] == "bin" and len(t) == 4:
+        if t[1] in ("Eq", "Ne", "Lt", "Le", "Gt", "Ge"):
+            return True
+        if t[1] in ("BitAnd", "BitOr"):
+            return _boolish(t[2]) and _boolish(t[3])
+    if t[0] == "un" and t[1] == "Not":
+        return _boolish(t[2])
+    return False
 
 
 def tstr(t, depth=0):
@@ -1739,6 +1763,21 @@ def ax_cmp_trait(op):
             va = I.read_pl(st, a[1]) if a[0] == "ref" else ("load", st.mem, ("deref", a))
             vb = I.read_pl(st, b[1]) if b[0] == "ref" else ("load", st.mem, ("deref", b))
             return mk_bin(op, va, vb)
+        # == / != on tuples of such values, both operands known component by component: the conjunction of the
+        # component equalities (`(l, r) == (vl, vr)`)
+        comps = [c_.strip() for c_ in base[1:-1].split(",")] if base.startswith("(") and base.endswith(")") else []
+        if op in ("Eq", "Ne") and len(comps) >= 2 and all(c_ in INT_TYS or c_ in ("bool", "char") for c_ in comps):
+            vals = []
+            for x in args[:2]:
+                v = I.read_pl(st, x[1]) if x[0] == "ref" else None
+                if not (isinstance(v, tuple) and v and v[0] == "agg" and v[1] == "tuple" and len(v[2]) == len(comps)):
+                    return NotImplemented
+                vals.append(v[2])
+            conj = None
+            for x, y in zip(vals[0], vals[1]):
+                e_ = mk_bin("Eq", x, y)
+                conj = e_ if conj is None else mk_bin("BitAnd", conj, e_)
+            return conj if op == "Eq" else ("un", "Not", conj)
         return NotImplemented
 
     return f
